@@ -49,7 +49,7 @@ func init() {
 		Rule: "rapid histories of delegations, undelegations, associations, slashes, NST updates, price rounds, AVS registration/update and opt-ins/opt-outs over worlds with generated asset decimals (0..18), price decimals, AVS asset lists, " +
 			"minimum self delegations and epoch identifiers; at every epoch end of an AVS the recorded operator and AVS values are compared with exact integer arithmetic over the committed pools and latest prices; " +
 			"non-trivial = a history with at least 4 compared operator records, among them an AVS with several assets and an operator below the minimum self delegation or a freshly registered AVS (epoch preceding its starting epoch); distinct = hash of the (kind, outcome) sequence",
-		Gen:        GenOpts{Weights: powerWeights(), HostilePct: 3, ExtremePct: 0, Anchor: true, Tempos: []int{7, 12, 21}, CapBits: 40, ClampBits: 56},
+		Gen:        GenOpts{Weights: powerWeights(), HostilePct: 3, ExtremePct: 0, Anchor: true, Tempos: []int{7, 12, 21}, CapBits: 40, ClampBits: 40},
 		MinSteps:   30,
 		MaxSteps:   110,
 		Config:     powerConfig,
